@@ -71,7 +71,7 @@ fn nth_string(mut idx: u64, len: u32) -> String {
 }
 
 fn random_text(r: &mut Rng) -> String {
-    const EXTRA: [&str; 16] = ["\t", "\n", "  ", "ALL", "All", "cap_\u{17f}etuid", "cap_k\u{131}ll", "é", "cap_chown,cap_syslog", "=eip", "+ep", "-i", "==", "+-", "\u{a0}", "Cap_Net_Admin"];
+    const EXTRA: [&str; 19] = ["\x0b", "\x0c", "\r\n", "\t", "\n", "  ", "ALL", "All", "cap_\u{17f}etuid", "cap_k\u{131}ll", "é", "cap_chown,cap_syslog", "=eip", "+ep", "-i", "==", "+-", "\u{a0}", "Cap_Net_Admin"];
     let mut s = String::new();
     let n = 1 + r.usize(14);
     for _ in 0..n {
@@ -145,6 +145,51 @@ fn run(ctx: &Ctx, rep: &Report) {
     });
     rep.eval(nrand);
     rep.count("random_texts", nrand);
+    // every one of the 41 names on its own, in three spellings, alone and in lists, with several
+    // suffixes and every ASCII white-space separator; and every near miss (one character dropped,
+    // doubled or replaced) of every name, which must be rejected unless it is itself a name
+    {
+        let mut local = BTreeMap::new();
+        let mut hs = Vec::new();
+        let names = &crate::model::caps::KERNEL_CAPS;
+        let mut texts: Vec<String> = Vec::new();
+        for (k, n) in names.iter().enumerate() {
+            let other = names[(k + 7) % names.len()];
+            let mixed: String = n.chars().enumerate().map(|(i, c)| if i % 2 == 0 { c.to_ascii_uppercase() } else { c }).collect();
+            for sp in [n.to_string(), n.to_uppercase(), mixed] {
+                for suf in ["=e", "+ep", "=eip", "-i", "=", ""] {
+                    texts.push(format!("{sp}{suf}"));
+                    texts.push(format!("{other},{sp}{suf}"));
+                    texts.push(format!("{sp},{other}{suf}"));
+                }
+                for ws in [" ", "\t", "\n", "\r", "\x0b", "\x0c"] {
+                    texts.push(format!("{sp}=e{ws}{other}+p"));
+                    texts.push(format!("{ws}{sp}=e{ws}"));
+                }
+            }
+            let b: Vec<char> = n.chars().collect();
+            for i in 0..b.len() {
+                let mut del = b.clone();
+                del.remove(i);
+                let mut dup = b.clone();
+                dup.insert(i, b[i]);
+                let mut rep1 = b.clone();
+                rep1[i] = if b[i] == 'x' { 'y' } else { 'x' };
+                for m in [del, dup, rep1] {
+                    let m: String = m.into_iter().collect();
+                    texts.push(format!("{m}=e"));
+                    texts.push(format!("{other},{m}+p"));
+                }
+            }
+        }
+        rep.count("name_table_texts", texts.len() as u64);
+        rep.eval(texts.len() as u64);
+        for t in &texts {
+            observe(rep, &mut local, &mut hs, t);
+        }
+        rep.counts(&local);
+        rep.nontrivial_many(hs);
+    }
     for s in ["cap_chown=e =p", "=e +p", "cap_net_admin,cap_net_raw+p", "all=eip", "cap_chown=+e", "cap_\u{17f}etuid=e", "cap_chown="] {
         let (v, why) = judge_reason(s);
         rep.sample(json!({"text": s, "model": format!("{v:?}"), "reason": why, "library_accepts": FileCaps::from_str(s).is_ok()}));
